@@ -5,7 +5,7 @@ from fractions import Fraction
 
 from vmon import gen
 from vmon import oracle as orc
-from vmon.checks.common import obs, fail
+from vmon.checks.common import obs, fail, random_prefix, apply_prefix
 
 PROP = "C10"
 MONITORS = ["bar_inv"]
@@ -63,7 +63,8 @@ def make_case(rng, i, tier):
     if rng.random() < 0.12:
         soup = [["on", 0, 60, 9], ["wait", rng.randint(1, max(1, cap))], ["on", 0, 60, 9], ["off", 0, 61], ["wait", 3]]
     return {"seq": spec, "num": num, "den": den, "key": rng.choice(gen.KEYS + [None, None]), "length": length,
-            "sigmode": sigmode, "soup": soup}
+            "sigmode": sigmode, "soup": soup,
+            "prefix": [op for op in random_prefix(rng, n=(1, 2)) if op["op"] not in ("scale", "pad")] if i % 4 == 3 else []}
 
 
 def run(case, ctx):
@@ -74,6 +75,7 @@ def run(case, ctx):
     num, den = case["num"], case["den"]
     cap = Fraction(96 * num, den)
     s = gen.raw_rel_seq(case["soup"]) if case["soup"] else gen.build_seq(case["seq"])
+    s = apply_prefix(s, case.get("prefix", []))
     o = obs(s)
     dur = o["dur"]
     sigs = [(e[0], e[5], e[6]) for e in o["non"] if e[1] == orc.TS]
